@@ -11,6 +11,7 @@ from vlib import capture, workload
 
 ASSUMPTIONS = [
     "manuscript presets are extracted from plot_manuscript_figures.py itself by executing its recalculate_plot_* functions with the runner entry points replaced by recorders, and are run exactly as the script submits them (incl. its country lists)",
+    "the yaml entry point (src/scenarios/run_scenarios_from_yaml.py) is driven with the shipped files (two of them run for real) and generated configurations; every simulation must reach the model once, with the options, NMONTHS, country list (string -> one-element list, missing -> all countries) and mode flags of the configuration",
     "a run is successful iff run_model_no_trade / run_and_analyze_scenario returns without raising and the headline is finite and >= 0",
 ]
 
@@ -84,10 +85,133 @@ def gen_cases(tier, seed):
             cases.append({"kind": "pipeline", "iso": iso, "opts": copy.deepcopy(o), "tag": name})
     for n, c in enumerate(cases):
         c["id"] = "%s|%s" % (c["iso"], c["tag"])
+    # runs made the way the report scripts and the README make them (figures / pptx on): a sample of the cells above, and for
+    # the countries with the most animal types in the head-count table (the report draws one line per type) two presets each
+    rp = random.Random(seed * 31 + 7)
+    plotted = rp.sample([c for c in cases if c["iso"] != "WOR"], 40 if tier == "quick" else 400)
+    try:
+        import pandas as pd
+
+        from vlib import env as _env
+
+        hs = pd.read_csv(_env.REPO + "/data/no_food_trade/animal_feed_data/FAOSTAT_head_and_slaughter.csv", index_col=0)
+        heads = hs[[c for c in hs.columns if c.endswith("_head")]]
+        many = [i for i in (heads > 0).sum(axis=1).sort_values(ascending=False).index if i in isos][:8]
+    except Exception:
+        many = []
+    base_p = [x for x in pres if not workload.is_global(x[1]) and "~" not in x[0]]
+    for iso in many:
+        for name, o, cl in rp.sample(base_p, 2):
+            plotted.append({"kind": "pipeline", "iso": iso, "opts": copy.deepcopy(o), "tag": name})
+    for c in plotted:
+        c2 = dict(copy.deepcopy(c), plots=True)
+        c2["tag"] = c["tag"] + "+report"
+        c2["id"] = "%s|%s" % (c2["iso"], c2["tag"])
+        cases.append(c2)
+    # the yaml-driven entry point itself (what run_scenarios_from_yaml.sh calls): the two small shipped files are run for real, in both
+    # the plain and the web-interface mode; the large file and generated configurations are driven with the model call recorded only
+    ycases = [("argentina.yaml", True, False), ("baseline_USA.yaml", True, True), ("argentina.yaml", False, True), ("eu_countries.yaml", False, False)]
+    for fn, real, web in ycases:
+        cases.append({"kind": "yaml_entry", "file": fn, "real": real, "web": web, "iso": "YAML", "tag": "entry:%s:%s:%s" % (fn, "real" if real else "recorded", "web" if web else "plain"),
+                      "id": "YAML|%s|%s|%s" % (fn, real, web)})
+    for k in range(3 if tier == "quick" else 20):
+        cases.append({"kind": "yaml_entry", "file": None, "gen_seed": seed * 53 + k, "real": False, "web": bool(k % 2), "iso": "YAML", "tag": "entry:generated#%d" % k, "id": "YAML|generated#%d" % k})
     return cases
 
 
+def yaml_entry(case):
+    """Drive src/scenarios/run_scenarios_from_yaml.py the way the shell script does and compare what reaches the model with the file."""
+    import contextlib
+    import io
+    import os
+
+    import yaml
+
+    from src.scenarios import run_scenarios_from_yaml as ry
+    from src.scenarios.run_model_no_trade import ScenarioRunnerNoTrade
+    from vlib import env
+
+    viol = []
+
+    def bad(mech, msg, **d):
+        d.update(iso="YAML", preset=case["tag"], cell="YAML|" + case["tag"], failure_class=d.get("failure_class"))
+        viol.append({"mech": mech, "msg": "%s: %s" % (case["tag"], msg), "data": d})
+
+    if case["file"]:
+        cfg = yaml.safe_load(open(os.path.join(env.REPO, "scenarios", case["file"])))
+        loaded = ry.load_config_data(case["file"])
+        if loaded != cfg:
+            bad("yaml_loaded_differs_from_file", "load_config_data returns something else than the file holds")
+    else:
+        rnd = random.Random(case["gen_seed"])
+        isos = workload.all_isos()
+        form = rnd.choice(["string", "list", "missing", "mixed_list"])
+        settings = {"NMONTHS": rnd.choice([120, 72, 48])}
+        if form == "string":
+            settings["countries"] = rnd.choice(isos)
+        elif form == "list":
+            settings["countries"] = rnd.sample(isos, rnd.choice([1, 3, 5]))
+        elif form == "mixed_list":
+            settings["countries"] = ["!" + c for c in rnd.sample(isos, 4)]
+        sims = {}
+        for j in range(rnd.choice([1, 2, 4])):
+            o = workload.random_options(rnd)
+            o["title"] = "generated simulation %d v1.%d" % (j, j)
+            sims["sim_%d" % j] = o
+        cfg = {"settings": settings, "simulations": sims}
+        loaded = copy.deepcopy(cfg)
+    want = []
+    st = cfg["settings"]
+    wc = st.get("countries", [])
+    wc = [wc] if isinstance(wc, str) else list(wc)
+    for name, sim in cfg["simulations"].items():
+        want.append((sim["title"], dict(sim, NMONTHS=st["NMONTHS"]), wc, "_" + name))
+    calls = []
+    orig = ScenarioRunnerNoTrade.run_model_no_trade
+
+    def rec(self, *a, **k):
+        calls.append({"title": k.get("title"), "opts": copy.deepcopy(k.get("scenario_option")), "countries": list(k.get("countries_list", [])), "postfix": k.get("figure_save_postfix"),
+                      "return_results": k.get("return_results"), "save_all_results": k.get("save_all_results"), "positional": len(a)})
+        if case["real"]:
+            return orig(self, *a, **k)
+        return None
+
+    ScenarioRunnerNoTrade.run_model_no_trade = rec
+    err = None
+    try:
+        with contextlib.redirect_stdout(io.StringIO()):
+            ry.run_scenarios_from_yaml(loaded, False, False, case["web"])
+    except BaseException as e:  # noqa: BLE001
+        if isinstance(e, KeyboardInterrupt):
+            raise
+        err = repr(e)[:200]
+    finally:
+        ScenarioRunnerNoTrade.run_model_no_trade = orig
+    if err is not None:
+        bad("run_failed", "the entry point raised %s after %d of %d simulations" % (err, len(calls), len(want)), failure_class="entry_point_raised")
+    if len(calls) != len(want):
+        bad("yaml_simulations_not_all_run", "%d simulations in the configuration, %d model calls" % (len(want), len(calls)))
+    for k, (c, w) in enumerate(zip(calls, want)):
+        if c["title"] != w[0] or c["postfix"] != w[3]:
+            bad("yaml_simulation_mislabelled", "call %d: title %r postfix %r, configuration says %r / %r" % (k, c["title"], c["postfix"], w[0], w[3]))
+        if c["opts"] != w[1]:
+            diff = sorted(kk for kk in set(c["opts"] or {}) | set(w[1]) if (c["opts"] or {}).get(kk) != w[1].get(kk))
+            bad("yaml_options_changed_on_the_way", "call %d (%s): options reaching the model differ from the file in %s" % (k, w[0], diff[:6]), keys=diff[:10])
+        if c["countries"] != w[2]:
+            bad("yaml_countries_changed_on_the_way", "call %d (%s): countries %s, configuration says %s" % (k, w[0], c["countries"][:6], w[2][:6]))
+        if bool(c["return_results"]) != bool(case["web"]) or bool(c["save_all_results"]) != bool(case["web"]):
+            bad("yaml_web_mode_flags_wrong", "call %d: return_results=%r save_all_results=%r in %s mode" % (k, c["return_results"], c["save_all_results"], "web-interface" if case["web"] else "plain"))
+    return {"viol": viol, "obs": {"iso": "YAML", "preset": case["tag"], "rounds": 1 if case["real"] else 0, "wall": 0, "percent_fed": 0.0 if err is None else None,
+                                   "yaml_simulations": len(want), "yaml_calls": len(calls), "yaml_real": bool(case["real"])}}
+
+
 def run_case(case, tier):
+    if case.get("kind") == "yaml_entry":
+        r = yaml_entry(case)
+        if r["obs"]["percent_fed"] is None:
+            del r["obs"]["percent_fed"]
+            r["obs"]["failure"] = "entry_point_raised"
+        return r
     tr = capture.run_pipeline(case)
     viol = []
     obs = {"iso": case["iso"], "preset": case["tag"], "rounds": len(tr.lps), "wall": round(tr.wall, 2)}
@@ -98,7 +222,7 @@ def run_case(case, tier):
         if "You must specify" in tr.error:
             mech = "preset_rejected_by_option_dispatcher"
         viol.append({"mech": mech, "msg": "%s under %s: %s" % (case["iso"], case["tag"], tr.error[:160]),
-                     "data": {"iso": case["iso"], "preset": case["tag"], "cell": "%s|%s" % (case["iso"], case["tag"]), "failure_class": fc,
+                     "data": {"iso": case["iso"], "preset": case["tag"], "cell": "%s|%s" % (case["iso"], case["tag"].replace("+report", "")), "report_mode": bool(case.get("plots")), "failure_class": fc,
                               "where": getattr(tr, "error_where", None)}})
     else:
         pf = tr.result.percent_people_fed
@@ -128,6 +252,8 @@ def summarize(cases, records, tier):
         "exhaustive": tier == "thorough",
         "runs_by_number_of_optimisation_rounds": {str(k): v for k, v in by_rounds.items()},
         "failed_cells": fails[:60],
+        "yaml_entry_point": {"configurations_driven": sum(1 for r in ok if "yaml_calls" in r["obs"]), "run_for_real": sum(1 for r in ok if r["obs"].get("yaml_real")),
+                             "simulations": int(sum(r["obs"].get("yaml_simulations", 0) for r in ok)), "model_calls_recorded": int(sum(r["obs"].get("yaml_calls", 0) for r in ok))},
         "wrapper_evaluations_note": "rounds per run counted by the Optimizer.optimize_* wrappers",
     }
     if len(done) < 0.5 * len(cases):
